@@ -80,6 +80,9 @@ func newNamer() *namer {
 		"naga_f2u32",
 		"naga_f2i64",
 		"naga_f2u64",
+		// the local of the wrapped constructors (`T ret = (T)0; … return ret;`):
+		// a user struct named ret would give `ret ret = (ret)0;`
+		"ret",
 	}
 
 	for _, name := range helperNames {
